@@ -22,7 +22,7 @@ class TableColumn():
         if type(self) != type(other):
             return False
 
-        for k in ['name', 'is_primary_key', 'type', 'default', 'length']:
+        for k in ['name', 'is_primary_key', 'type', 'default', 'length', 'nullable']:
 
             if getattr(self, k) != getattr(other, k):
                 return False
